@@ -164,6 +164,9 @@ def _convert_splits_to_groups(splits, N):
     Convert indices of splits into explicit groupings
     '''
     out = []
+    if len(splits) == 0:
+        # no splits: a single group holding every layer
+        out.append(numpy.arange(0, N))
     for i in range(len(splits)):
         if i == 0:
             out.append(numpy.arange(0,splits[i]+1))
